@@ -567,6 +567,16 @@ func (c *mcase) classify(r *h.Rec, msg []byte) {
 	if n > 600 {
 		r.Label("len>600")
 	}
+	switch {
+	case n >= 4080 && n <= 4128:
+		r.Label("len 4080..4128 (256 blocks +-)")
+	case n >= 65519 && n <= 65553:
+		r.Label("len 64KiB +-17")
+	case n == 131088:
+		r.Label("len 128KiB+16")
+	case n >= 1048560:
+		r.Label("len ~1MiB")
+	}
 	if len(c.Parts) >= 2 {
 		r.Label("calls>=2")
 		r.Label("calls=%d", len(c.Parts))
@@ -599,6 +609,11 @@ func (c *mcase) classify(r *h.Rec, msg []byte) {
 			r.Label("ctr-wrap-2^128")
 		}
 		carry = c32 || c64 || c128
+		for _, bits := range []uint{8, 16, 24} {
+			if ctrCarryAt(c.IV, (n+bs-1)/bs, bits) {
+				r.Label("ctr-carry-2^%d", bits)
+			}
+		}
 	}
 	if isXTS(c.Mode) {
 		k1, k2 := c.keys()
@@ -627,6 +642,12 @@ func (c *mcase) classify(r *h.Rec, msg []byte) {
 			r.Label("hctr (len-16) mod 16 not in {0,8}")
 		} else {
 			r.Label("hctr (len-16) mod 16 in {0,8}")
+		}
+		switch blocks := (n - bs + bs - 1) / bs; { // the internal counter runs 1..blocks
+		case blocks > 65535:
+			r.Label("hctr-counter crosses 65535/65536")
+		case blocks > 255:
+			r.Label("hctr-counter crosses 255/256")
 		}
 	}
 	r.NTIf(n%bulk != 0 || len(c.Parts) >= 2 || carry)
@@ -879,6 +900,106 @@ func sweepCases(mode string, emit func(mcase)) {
 	}
 }
 
+// ctrCarryAt: does the counter sequence IV..IV+nblocks-1 carry out of its low `bits` bits?
+func ctrCarryAt(iv []byte, nblocks int, bits uint) bool {
+	if nblocks <= 1 {
+		return false
+	}
+	var low uint64
+	for _, b := range iv[8:] {
+		low = low<<8 | uint64(b)
+	}
+	mask := uint64(1)<<bits - 1
+	return low&mask+uint64(nblocks-1) > mask
+}
+
+// boundaryCases: lengths and counters at which a length or counter field
+// grows a byte - 256 blocks, 64 KiB, 128 KiB (thorough: 1 MiB) - for every
+// mode x direction x path, in place and disjoint, one call and two calls cut
+// at a batch boundary.
+func boundaryCases(mode string, emit func(mcase)) {
+	var lens []int
+	add := func(ns ...int) {
+		for _, n := range ns {
+			if isBlockMode(mode) && n%bs != 0 {
+				continue
+			}
+			dup := false
+			for _, m := range lens {
+				dup = dup || m == n
+			}
+			if !dup {
+				lens = append(lens, n)
+			}
+		}
+	}
+	add(4080, 4095, 4096, 4097, 4112)
+	if mode == "hctr" { // 16 + 256 blocks +- : the internal counter reaches 255, 256, 257
+		add(4111, 4113, 4127, 4128)
+	}
+	add(65536-17, 65536-16, 65536-1, 65536, 65536+1, 65536+16, 65536+17)
+	if isXTS(mode) {
+		for r := 2; r < 16; r++ {
+			add(65536 + r)
+		}
+	}
+	add(131072 + 16)
+	if mode == "hctr" { // 16 + 65537 blocks + 5 bytes: the internal counter crosses 65535/65536
+		add(1048576 + 16 + 16 + 5)
+	}
+	if h.Thorough() {
+		add(1048576-16, 1048576-1, 1048576, 1048576+1, 1048576+16, 1048576+17)
+	}
+	dirs := []bool{false, true}
+	if !hasDirection(mode) {
+		dirs = []bool{false}
+	}
+	mi := modeIdx[mode]
+	for li, n := range lens {
+		// arrangements: 0 disjoint/one call, 1 in place/two calls, 2 in place/one call, 3 disjoint/two calls
+		vs := []int{0, 1, 2, 3}
+		switch {
+		case n > 1000000:
+			vs = []int{li % 4}
+		case n > 65537 && n < 65552, n > 131072:
+			vs = []int{2 * (li % 2), 2*(li%2) + 1}
+		}
+		for _, dec := range dirs {
+			for path := 0; path < 3; path++ {
+				for _, v := range vs {
+					c := mcase{Mode: mode, Dec: dec, Path: path, Len: n, Flip: -1}
+					c.KeySeed = gen.Mix(h.Seed, mi, uint64(n), 11)
+					c.Seed = gen.Mix(h.Seed, mi, uint64(n), uint64(v), 12)
+					c.InPlace = v == 1 || v == 2
+					c.GStart = (li+v)%2 == 1
+					c.DstLong = v == 3
+					ivSeed := gen.Mix(h.Seed, mi, uint64(n), uint64(v), 13)
+					c.IV = gen.Fill(ivSeed, bs)
+					if v%2 == 1 && mode != "hctr" {
+						if cut := (n - 17) / 256 * 256; cut > 0 {
+							c.Parts = []int{cut, n - cut}
+						}
+					}
+					if mode == "ctr" {
+						// low 8/16/24/32 bits of the counter wrap inside the message
+						nb := (n + bs - 1) / bs
+						bits := []int{16, 24, 16, 32, 8, 64}[(li+v+path)%6]
+						j := []int{0, 1, 255, 256, nb / 2, nb - 2}[(li+2*v+path)%6]
+						if bits == 8 && j > 255 {
+							j = 255
+						}
+						c.IV = carryIV(bits, j, ivSeed)
+					}
+					if (isXTS(mode) || mode == "hctr") && v == 0 && n < 1000000 {
+						c.Flip = (n*13 + path*37) % 128
+					}
+					emit(c)
+				}
+			}
+		}
+	}
+}
+
 const rapidMaxLen = 8192
 
 func drawLen(t *rapid.T, mode string) int {
@@ -1072,6 +1193,7 @@ func family(t *testing.T, mode string, quick, thorough int) {
 	observe(mode)
 	h.MarkExhaustive(mode + "-lengths")
 	h.Sweep(t, h.P{Name: mode + "-lengths", Journal: true}, func(emit func(mcase)) { sweepCases(mode, emit) }, checkCase)
+	h.Sweep(t, h.P{Name: mode + "-boundaries", Journal: true}, func(emit func(mcase)) { boundaryCases(mode, emit) }, checkCase)
 	h.Prop(t, h.P{Name: mode + "-rapid", Quick: quick, Thorough: thorough, Journal: true}, genCase(mode), checkCase)
 }
 
